@@ -726,7 +726,7 @@ func execC11(t *testing.T, raw json.RawMessage) *sim.Outcome {
 		}
 		o.Fail("C11.own_reply", "foreign_reply", 0, "%s", e)
 	}
-	checkDiscipline(o, a, b)
+	checkDiscipline(o, a, b, simsync.Spawned() > spawnedBefore)
 	if n := simtime.Fired() - timersBefore; n > 0 {
 		// The code under test armed callback timers and the scheduler fired them (at arbitrary moments: a scheduled
 		// run has no clock). What such a callback does is not an operation of the sequential model, so - as for an
@@ -888,7 +888,7 @@ func describeHistory(hist []histOp, info porcupine.LinearizationInfo) string {
 // checkDiscipline: every request frame on the upstream connection comes from
 // one task without foreign bytes in between, and the reply to the k-th request
 // is read only by the task that wrote it.
-func checkDiscipline(o *sim.Outcome, a, b *schedconn.End) {
+func checkDiscipline(o *sim.Outcome, a, b *schedconn.End, daemons bool) {
 	sent, writes := a.Sent()
 	owner := make([]int, 0, len(sent))
 	for _, w := range writes {
@@ -900,6 +900,12 @@ func checkDiscipline(o *sim.Outcome, a, b *schedconn.End) {
 	for off := 0; off+4 <= len(sent); {
 		l := int(binary.BigEndian.Uint32(sent[off:]))
 		end := off + 4 + l
+		if daemons && l <= 1<<24 && end > len(sent) {
+			// the stream ends inside a well-formed frame and goroutines of the code under test were still at work
+			// when the last client operation returned (an abandoned request that is still being sent): no interleaving
+			o.Probe("stream_ends_inside_a_frame_of_a_background_goroutine")
+			break
+		}
 		if l > 1<<24 || end > len(sent) {
 			o.Fail("C11.transport", "garbled_frame", len(reqOwner), "request stream to the underlying agent is garbled at offset %d (declared length %d, %d bytes left): frames of different callers were interleaved (bytes %s)", off, l, len(sent)-off, hex.EncodeToString(sent[off:min(len(sent), off+24)]))
 			return
